@@ -71,7 +71,7 @@ def eq(x, y):
     elif isinstance(x, (tuple, list)):
         return type(x) == type(y) and len(x) == len(y) and _eq_attrs(x,y,['__shape__']) and (len(x) == 0 or min([eq(i,j) for i,j in zip(x,y)]))
     elif isinstance(x, np.ndarray):
-        return type(x) == type(y) and len(x) == len(y) and _eq_attrs(x,y,['__shape__']) and (0 in x.shape or np.all(veq(x,y)))
+        return type(x) == type(y) and x.shape == y.shape and (0 in x.shape or np.all(veq(x,y)))
     elif isinstance(x, (pd.DataFrame, pd.Series)):
         return type(x)==type(y) and _eq_attrs(x,y, attrs = ['__shape__', 'index', 'columns']) and (0 in x.shape or np.all(veq(x,y)))
     elif isinstance(x, dict):
@@ -80,7 +80,7 @@ def eq(x, y):
                 return True
             xkey, xval = zip(*sorted(x.items()))
             ykey, yval = zip(*sorted(y.items()))
-            return eq(xkey, ykey) and eq(np.array(xval, dtype='object'), np.array(yval, dtype='object'))
+            return eq(xkey, ykey) and eq(xval, yval)
         else:
             return False
     elif isinstance(x, float) and np.isnan(x):
@@ -89,6 +89,8 @@ def eq(x, y):
         return type(x) == type(y) and x.func == y.func and eq(x.keywords, y.keywords) and eq(x.args, y.args)
     else:
         try:
+            if np.ndim(x) == 0 and isinstance(y, (tuple, list, dict, np.ndarray, pd.DataFrame, pd.Series)):
+                return False # a scalar never equals a container (x == y would broadcast)
             res = x == y
             return np.all(res.__array__()) if hasattr(res, '__array__') else res
         except Exception:
